@@ -330,7 +330,7 @@ def _expr_effect_free(n):
         while isinstance(root, ast.Attribute):
             root = root.value
         pure = (isinstance(root, ast.Name) and root.id in _PURE_ROOTS and isinstance(f, ast.Attribute)) or \
-               (isinstance(f, ast.Name) and f.id in ("timedelta", "datetime", "float", "int", "str", "tuple", "frozenset", "len", "abs", "min", "max", "round"))
+               (isinstance(f, ast.Name) and f.id in ("timedelta", "datetime", "float", "int", "str", "tuple", "frozenset", "len", "abs", "min", "max", "round", "object"))
         return pure and all(_expr_effect_free(a) for a in n.args) and all(_expr_effect_free(kw.value) for kw in n.keywords)
     return False
 
